@@ -419,6 +419,11 @@ def check_property(pid, tier, seed, t0):
         proof_broken.append("lake build: " + build_fail["lake"][-1500:])
     if "translator" in build_fail:
         proof_broken.append("translator: " + build_fail["translator"][-1500:])
+    for k, v in build_fail.items():
+        # the harness (built against /repo's working tree) or a generator no longer builds: the
+        # correspondence cannot be run, so the property is no longer shown to hold
+        if k not in ("lake", "translator"):
+            proof_broken.append("build step `%s` failed: %s" % (k, str(v)[-1500:]))
 
     cov = {"obligations": audit["obligations"], "discharged": audit["discharged"],
            "checker_cmd": "cd lean && lake build BroodModel driver && lake env lean BroodModel/Props/%s.lean  (# #print axioms audited)" % pid,
